@@ -52,6 +52,25 @@ NOT_APPLICABLE = {
  "C20": "check not built yet (two clusters on one network, identity mix-ups)",
 }
 
+
+CHECKS.update({
+ "C09": ("A", "exploration", "runtime monitoring: snapshot files read back at publish/store time and compared with the global applied sequence and committed log; quarantined (PROT_NONE) unmapped segments; FSM oracles across restore/install",
+         "held on the executions explored (snapshot-heavy nemesis, directed stale-suffix installation, crash-heavy runs)", "as C01", "5 C09"),
+ "C12": ("A", "exploration", "runtime monitoring: snapshot labels vs committed configuration ledger; membership after restart vs log suffix / label; directed interleaving of snapshot and membership commit via an ordering hook",
+         "held on the executions explored", "as C01", "5 C12"),
+ "C13": ("C", "exploration", "reference-model monitor: real log package vs in-memory abstract sequence after every operation of seeded programs, concurrent view readers, race-detector builds",
+         "held on the programs explored (about 2 000 per quick run, all boundary sizes and removal indexes biased in)", "the model is the specification; views used as documented", "5 C13"),
+ "C14": ("C", "fault_enumeration", "fault injection: kill and page-subset power-loss images at every hook point inside log operations, reopened with the real log.Open and judged against the model's pre/post state and last completed commit",
+         "every crash point the programs pass through is enumerated; per point the kill image and up to 2^6 (else sampled) power-loss images",
+         "directory operations durable at return; 4 KiB page granularity over the last completed msync", "5 C14"),
+ "C15": ("A", "exploration", "sanitizers + runtime monitoring: race detector / checkptr builds of the live-cluster engine, quarantined mappings, child-process death and Serve result monitor, task completion and shutdown monitor",
+         "held on the executions explored, plain and -race", "race reports deduplicated by accessing-function pair; harness-only reports ignored", "5 C15"),
+ "C18": ("D", "exploration", "round-trip monitor over boundary-biased generated values for every codec + truncated-prefix rejection + persisted 64-bit values through the public API",
+         "held on the values explored (about 240 000 per quick run)", "exported wrappers call the unexported codecs unchanged", "5 C18"),
+})
+for k in ("C09","C12","C13","C14","C15","C18"):
+    NOT_APPLICABLE.pop(k, None)
+
 def hooks_commits():
     out = subprocess.run(["git", "-C", "/repo", "log", "--format=%H %s"], capture_output=True, text=True).stdout
     return [l.split()[0] for l in out.splitlines() if " verif hooks:" in l]
@@ -69,6 +88,10 @@ m = {
  "engines": [
   {"name": "A", "path": "harness/cmd/worker/enginea.go", "serves_properties": sorted(k for k, v in CHECKS.items() if "A" in v[0]),
    "kind_free_text": "live cluster of real nodes in one child process on an in-memory network, seeded nemesis + directed scenarios, hooks -> events.jsonl, offline oracles in harness/oracle"},
+  {"name": "C", "path": "harness/cmd/worker/enginec.go", "serves_properties": ["C13", "C14"],
+   "kind_free_text": "log package alone vs reference model, crash images (kill + page-subset power loss) at every log hook point"},
+  {"name": "D", "path": "harness/cmd/worker/engined.go", "serves_properties": ["C18"],
+   "kind_free_text": "codec round trips over generated values, truncated prefixes, value files through SetIdentity/New and vote+restart"},
  ],
  "checks": [],
  "notes": "Technique family: runtime monitoring. check = /verif/bin/check <id> --tier quick|thorough; VERIF_SEED seeds the case list; witnesses under /verif/witness/<id>/; known findings in /verif/known_findings.json.",
